@@ -49,6 +49,9 @@ func valueOf(kind string, seed uint64, col, j int) string {
 		sep := joinSeps[int(seed%uint64(len(joinSeps)))]
 		sep2 := joinSeps[int((seed/13)%uint64(len(joinSeps)))]
 		return []string{"p", "q", "r", "p" + sep + "q", "q" + sep + "r", "p" + sep2 + "q", "q" + sep2 + "r", "p" + sep + "q" + sep + "r", ""}[j%9]
+	case "ws":
+		// values that differ only in the shape of a white-space run (inside, leading, trailing)
+		return wsValues[j%len(wsValues)]
 	case "huge":
 		return hugeValue(j)
 	case "boundary":
@@ -89,6 +92,8 @@ func boundaryValue(nameLen, j int) string {
 	}
 	return strings.Repeat("x", t-1) + string(rune('a'+j%2))
 }
+
+var wsValues = []string{"p q", "p  q", "p\tq", "p\nq", " p q", "p q ", "pq", "p\u00a0q", "p \t q", "p\r\nq"}
 
 var joinSeps = []string{"\x1f", ",", "\x00", "|", ";", " ", "\t", ":", "/", "\x1e", "=", "\n"}
 
@@ -197,7 +202,7 @@ func GenDataSpec(r *simrt.Rand, n int, wantUnique bool) *DataSpec {
 	if r.Chance(1, 3) {
 		ncols = r.Range(4, 7)
 	}
-	kinds := []string{"num", "num", "utf8", "bin", "mixed", "order"}
+	kinds := []string{"num", "num", "utf8", "bin", "mixed", "order", "ws"}
 	shapes := []string{"uniform", "uniform", "zipf", "run", "sparse"}
 	perm := r.Intn(len(colNames))
 	for c := 0; c < ncols; c++ {
